@@ -136,7 +136,8 @@ inductive Wrapper
   | annotated              -- adapt_typehints, Annotated validator: `except Exception` → ValueError
   | registered             -- RegisteredType.deserializer: deserializer_exceptions → ValueError
   | enumLookup             -- adapt_typehints, Enum: `except KeyError` → ValueError
-  | typeImport             -- adapt_typehints, Type[..]: handler around import_object (none today)
+  | typeImport             -- adapt_typehints, Type[..]: `(ImportError, AttributeError)` around import_object → ValueError
+  | floatConv              -- adapt_typehints, basic types: `except OverflowError` around float(val) → ValueError
   | unionTry               -- adapt_typehints, Union: `except Exception` per member, then ValueError
   | subclassBranch         -- adapt_typehints, subclass types
   | callableBranch         -- adapt_typehints, Callable
@@ -194,7 +195,6 @@ inductive Tag
   | clean
   | innerErr      -- `error()` of a parser made with exit_on_error=False, while the user's parser exits
   | forcedExit    -- `error()` of a parser made with exit_on_error=True, while the user's parser raises
-  | typeImport    -- raised by the `Type[..]` branch of adapt_typehints, which has no handler
   | directArgErr  -- a handler that raises ArgumentError itself instead of calling `error()`, while the user's parser exits
 deriving DecidableEq, Repr
 
@@ -303,6 +303,7 @@ inductive Region
   | vocContent               -- parse_value_or_config: get_content
   | adapt                    -- adapt_typehints (raise_unexpected_value of every branch)
   | anyLoad | anyClasses | leafLoad | annotated | registered | enumLookup | typeImport | unionTry
+  | floatConv                -- adapt_typehints, basic types: float(val) of an int
   | subclass | callable | dataclass
   | classType                -- adapt_class_type
   | dictKwargsLoad
@@ -333,7 +334,7 @@ def Region.all : List Region :=
    .checkType, .checkTypeLoad, .valueOrConfig, .vocPath, .vocContent, .adapt, .anyLoad, .anyClasses, .leafLoad,
    .annotated, .registered, .enumLookup, .typeImport, .unionTry, .subclass, .callable, .dataclass, .classType,
    .dictKwargsLoad, .merge, .discard, .knownArgs, .typehintAction, .applyConfig, .acPath, .acStr, .acElse,
-   .configLoad, .subcmdAction, .printConfigAction, .helpAction, .helpClassPath, .helpImport, .positional, .leftover, .loadDoc]
+   .configLoad, .subcmdAction, .printConfigAction, .helpAction, .helpClassPath, .helpImport, .positional, .leftover, .loadDoc, .floatConv]
 
 theorem Region.mem_all (r : Region) : r ∈ Region.all := by
   cases r with
@@ -373,6 +374,7 @@ def wrappers : Region → List Wrapper
   | .registered => [.registered]
   | .enumLookup => [.enumLookup]
   | .typeImport => [.typeImport]
+  | .floatConv => [.floatConv]
   | .unionTry => [.unionTry]
   | .subclass => [.subclassBranch]
   | .callable => [.callableBranch]
@@ -417,7 +419,7 @@ def children : Region → List Region
   | .checkTypeLoad => [.valueOrConfig]
   | .valueOrConfig => [.vocPath, .vocContent, .loadValue]
   | .vocContent => [.loadValue]
-  | .adapt => [.anyLoad, .anyClasses, .leafLoad, .annotated, .registered, .enumLookup, .typeImport, .unionTry,
+  | .adapt => [.anyLoad, .anyClasses, .leafLoad, .floatConv, .annotated, .registered, .enumLookup, .typeImport, .unionTry,
                .subclass, .callable, .dataclass]
   | .anyLoad => [.valueOrConfig]
   | .anyClasses => [.classType]
@@ -452,7 +454,7 @@ def stageOf : Region → Option Stage
   | .knownArgs => some .argvTokenise
   | .typehintAction | .applyConfig | .acElse | .subcmdAction | .printConfigAction | .helpAction
   | .helpClassPath | .helpImport => some .actionCall
-  | .checkValueKey | .plainType | .checkType | .adapt | .annotated | .registered | .enumLookup | .typeImport
+  | .checkValueKey | .plainType | .checkType | .adapt | .annotated | .registered | .enumLookup | .typeImport | .floatConv
   | .unionTry | .subclass | .callable | .dataclass | .classType | .anyClasses | .merge | .discard | .positional =>
     some .checkType
   | .loadValue | .yamlConstruct | .yamlAlways | .envList | .checkTypeLoad | .valueOrConfig | .anyLoad | .leafLoad
@@ -505,6 +507,7 @@ def designed (mode : Mode) : Region → List DSig
   | .registered => [.deser]
   | .enumLookup => [.exc .KeyError, .exc .TypeError]
   | .typeImport => [.exc .ImportError, .exc .AttributeError, .exc .ValueError]
+  | .floatConv => [.exc .OverflowError]
   | .subclass => [.exc .ImportError, .exc .AttributeError, .exc .AssertionError, .exc .ValueError]
   | .callable => [.exc .ImportError, .exc .AttributeError, .exc .ValueError]
   | .dataclass => [.exc .ValueError]
@@ -533,8 +536,8 @@ def effOf (T : Tables) (eff : Bool) : Region → Bool
   | .helpBody => T.helpExitOnError
   | _ => eff
 
+/-- tag of what a region raises itself (no region is a tagged origin any more: the `Type[..]` import got its handler) -/
 def bornTag : Region → Tag
-  | .typeImport => .typeImport
   | _ => .clean
 
 def below (T : Tables) (cs : List Exc) : List Exc := Exc.all.filter (fun c => cs.any (sub T c))
@@ -608,7 +611,7 @@ def Region.code : Region → Nat
   | .callable => 51 | .dataclass => 52 | .classType => 53 | .dictKwargsLoad => 54 | .merge => 55 | .discard => 56
   | .knownArgs => 57 | .typehintAction => 58 | .applyConfig => 59 | .acPath => 60 | .acStr => 61 | .acElse => 62
   | .configLoad => 63 | .subcmdAction => 64 | .printConfigAction => 65 | .helpAction => 66 | .helpClassPath => 67
-  | .helpImport => 68 | .positional => 69 | .leftover => 70 | .loadDoc => 71
+  | .helpImport => 68 | .positional => 69 | .leftover => 70 | .loadDoc => 71 | .floatConv => 72
 
 def St.idx (st : St) : Nat := 2 * st.1.code + (if st.2 then 1 else 0)
 
